@@ -26,7 +26,7 @@ func init() {
 			{Name: "circuit-id-not-compared", File: "protocols/isis/server/neighbor.go", Old: "\treturn t.NeighborSystemID == n.nm.netIfa.srv.nets[0].SystemID && t.NeighborExtendedLocalCircuitID == uint32(n.nm.netIfa.devStatus.GetIndex())", New: "\treturn t.NeighborSystemID == n.nm.netIfa.srv.nets[0].SystemID", Expect: "up-requires-three-way"},
 			{Name: "hold-timer-from-local-config", File: "protocols/isis/server/neighbor.go", Old: "\tn.updateTimeout(clock.Now().Add(time.Second * time.Duration(hello.HoldingTimer)))", New: "\tn.updateTimeout(clock.Now().Add(time.Second * time.Duration(n.nm.netIfa.cfg.holdingTimer())))", Expect: "hold-timer-from-hello"},
 			{Name: "timeout-only-for-up-adjacencies", File: "protocols/isis/server/neighbor.go", Old: "\t\t\tif state != packet.P2PAdjStateDown {\n\t\t\t\tif n.timedOut() {", New: "\t\t\tif state == packet.P2PAdjStateUp {\n\t\t\t\tif n.timedOut() {", Expect: "timeout-covers-every-live-state"},
-			{Name: "lsp-from-single-neighbor-helper", File: "protocols/isis/server/lsp.go", Old: "\t\tfor _, n := range ifa.neighborManagerL2.getNeighborsUp() {\n\t\t\teir.AddNeighbor(n.extendedISReachabilityNeighbor())\n\t\t}\n", New: "\t\tfor _, n := range ifa.neighborManagerL2.getNeighbors() {\n\t\t\teir.AddNeighbor(n.extendedISReachabilityNeighbor())\n\t\t}\n", Expect: "lsp-lists-up-adjacencies"},
+			{Name: "lsp-from-single-neighbor-helper", File: "protocols/isis/server/lsp.go", Old: "\t\tfor _, n := range ifa.neighborManagerL2.getNeighborsUp() {\n\t\t\tneighbor := n.extendedISReachabilityNeighbor()", New: "\t\tfor _, n := range ifa.neighborManagerL2.getNeighbors() {\n\t\t\tneighbor := n.extendedISReachabilityNeighbor()", Expect: "lsp-lists-up-adjacencies"},
 		},
 	})
 }
@@ -214,7 +214,20 @@ func runC31(c *core.Ctx) {
 	}
 
 	// (4) the local LSP
-	if f := c.MustFunc(isisSrv + ".(*Server).extendedISReachabilityTLV"); f != nil {
+	// the function that fills the extended IS reachability TLV(s): found by what it does (calls AddNeighbor), not by name
+	var lspNeighbors *core.Fn
+	for _, g := range p.FuncsIn(isisSrv) {
+		if g.Decl.Body == nil || isTestFn(p, g) {
+			continue
+		}
+		if len(core.Calls(g.Pkg, g.Decl.Body, core.KeyIs("protocols/isis/packet.(*ExtendedISReachabilityTLV).AddNeighbor"))) > 0 {
+			lspNeighbors = g
+		}
+	}
+	if lspNeighbors == nil {
+		c.Undecided("lsp-lists-up-adjacencies", "the function that adds neighbors to the extended IS reachability TLV", token.NoPos, "no caller of ExtendedISReachabilityTLV.AddNeighbor in the IS-IS server")
+	}
+	if f := lspNeighbors; f != nil {
 		upFn := p.Func(isisSrv + ".(*neighborManager).getNeighborsUp")
 		allIf := p.Func(isisSrv + ".(*netIfaManager).getAllInterfaces")
 		l2 := p.Field(isisSrv, "netIfa", "neighborManagerL2")
